@@ -20,6 +20,11 @@ Round 2, oracle only (see the comment above XML_ENTRIES): xml_file / keepx (byte
 points x reader options x XML-level features x extended text pools), dict_py (Python values that are no JSON
 trees, YAML-only constructs, default show_warnings), reuse (one reader object, several inputs), sub (other
 locale and hash seed).
+Round 3 (see the comment above SPICE): the characters of the texts - tokens that mean something to message
+templates, escapes, quoting, regular expressions, markup, paths - in the trees of every tree stream; stream fault
+(valid document + a fault from a grammar: problem kind x texts carried x location x copies x line number), with the
+clause "a lenient read of an input with a problem has recorded a warning"; further shapes of the entry points
+(pathlib, bytes path, bytearray, memoryview), boundary inputs, an interpreter with -OO.
 """
 import contextlib
 import io
@@ -433,7 +438,9 @@ ALPHA = list(u"<>/=\"'&;?![]-{}:,# \n\t") + ["odML", "version", "1.1", "section"
                                                  "<?xml", "?>", "<!--", "-->", "<![CDATA[", "]]>",
                                                  "<!DOCTYPE", u"é", u"²", "\r", "&amp;", "&#13;",
                                                  "&e;", "encoding=", "\"UTF-8\"", "- ", ": ", "!!python/object",
-                                                 "*x", "&x ", "%YAML", "---", "null", "true", "1e999", "\\u00"]
+                                                 "*x", "&x ", "%YAML", "---", "null", "true", "1e999", "\\u00",
+                                                 # round 3: characters that mean something to message templates
+                                                 "%", "%s", "%d", "%(", "{0}", "{", "}", "\\", "$", "'", "`", "%%", "100% "]
 
 
 def random_text(rng):
@@ -943,11 +950,13 @@ def dict_env(value):
 # The Lean model does not cover them: model_requests returns [] and the oracle alone decides.
 
 XML_ENTRIES = ["file", "file", "file_rb", "bytesio", "file_rt", "stringio", "string", "bytes", "odml_file",
-               "odml_string", "odml_bytes", "load", "load", "load_backend", "xp_load"]
+               "odml_string", "odml_bytes", "load", "load", "load_backend", "xp_load",
+               # round 3: further shapes of the same entry points
+               "file_pathlib", "file_bytespath", "bytearray", "memoryview", "load_pathlib", "odml_file_rb"]
 STR_ENTRIES = ("file_rt", "stringio", "string", "odml_string")        # the reader is given decoded text
-PATH_ENTRIES = ("file", "odml_file", "load", "load_backend", "xp_load")
-FILEISH = PATH_ENTRIES + ("file_rb", "bytesio")                        # lxml decodes the bytes of a file
-LENIENT_ENTRIES = ("odml_file", "load", "load_backend")                # always ignore_errors=True
+PATH_ENTRIES = ("file", "odml_file", "load", "load_backend", "xp_load", "file_pathlib", "file_bytespath", "load_pathlib")
+FILEISH = PATH_ENTRIES + ("file_rb", "bytesio", "odml_file_rb")        # lxml decodes the bytes of a file
+LENIENT_ENTRIES = ("odml_file", "load", "load_backend", "load_pathlib", "odml_file_rb")    # always ignore_errors=True
 STRICT_ENTRIES = ("odml_string", "odml_bytes", "xp_load")              # always ignore_errors=False
 
 # codec used to write the bytes, encoding named in the XML declaration (None: no declaration, "": a
@@ -994,7 +1003,8 @@ def gen_xspec(rng, ascii_names=False):
         enc = rng.choice(ENC_WRONG)
     return {"codec": enc[0], "decl": enc[1], "bom": enc[2], "faithful": enc[3], "same": enc[4],
             "entry": entry, "mode": rng.choice(["strict", "lenient"]), "sw": rng.random() < 0.4,
-            "fn": rng.choice([None, None, "x.xml", u"http://example.invalid/\xe9.xml"]),
+            "fn": rng.choice([None, None, "x.xml", u"http://example.invalid/\xe9.xml", "100%.xml", "%s.xml", "{0}.xml",
+                              "C:\\new\\x.xml", "it's.xml"]),
             "fname": rng.choice(FNAMES_ASCII if ascii_names else FNAMES),
             "nl": rng.choice(["\n", "\n", "\n", "\r\n", "\r"])}
 
@@ -1089,28 +1099,52 @@ def feat_document(tree, rng):
     return pre + ser_feat(tree, o, rng) + post
 
 
+BOUNDARY_BODIES = ["", " ", "\n", "\t\n ", "<", "<odML", "<odML/>", '<odML version="1.1"/>', '<odML version="1.1"></odML>',
+                   '<odML version="1.1"> </odML>', '<odML version="1.1">text</odML>', '<odML version="1.1"><section/></odML>',
+                   '<odML version="1.1"><property/></odML>', '<odML version="1.1"><odML version="1.1"/></odML>', "<a/>",
+                   '<odML version=""/>', "<odML version='1.1' version='1.1'/>", '<odML version="1.1"/><odML version="1.1"/>',
+                   "\x00", "huge", "many", "many", "many"]
+
+
 def gen_xml_body(rng, res):
     """a text without XML declaration (the declaration is part of the encoding spec of the case)"""
     r = rng.random()
+    spiced = (lambda t: spice_xml(t, rng, False) if rng.random() < 0.35 else t)      # round 3
     if r < 0.4:
         _X[0] = True
         try:
-            return feat_document(gen_xml_doc(rng), rng)
+            return feat_document(spiced(gen_xml_doc(rng)), rng)
         finally:
             _X[0] = False
     if r < 0.6:
         _X[0] = True
         try:
-            return serialize(gen_xml_doc(rng))
+            return serialize(spiced(gen_xml_doc(rng)))
         finally:
             _X[0] = False
     if r < 0.7:
-        return serialize(gen_xml_doc(rng))
+        return serialize(spiced(gen_xml_doc(rng)))
     if r < 0.85 and res["XML"]:
         text = rng.choice(res["XML"])
         if rng.random() < 0.7:
             text = mutate_text(text, rng)
         return re.sub(r"^<\?xml[^>]*\?>\s*", "", text)
+    if r < 0.73:
+        # round 3: boundary texts - nothing, white space, a root and nothing else, a single huge text node
+        # (libxml2 refuses text nodes above 10^7 characters unless told otherwise), very many siblings
+        b = rng.choice(BOUNDARY_BODIES)
+        if b == "huge":
+            n = rng.choice([10 ** 5, 10 ** 6, 10 ** 7 - 100, 10 ** 7 + 100])
+            return '<odML version="1.1"><section><name>s</name><type>t</type><definition>' + "x%" * (n // 2) + \
+                   '</definition></section><section><name>after</name><type>t</type></section></odML>'
+        if b == "many":
+            n = rng.choice([10, 11, 100, 1000, 3000])
+            what = rng.choice(['<section><name>s%d</name><type>t</type></section>',
+                               '<section><name>s</name><type>t</type><property><name>p%d</name><value>%d</value></property></section>',
+                               '<section><type>t%d</type></section>', '<foo>%d</foo>',
+                               '<section><name>s</name><type>t</type><section><name>d</name><type>%d</type></section></section>'])
+            return '<odML version="1.1">' + "".join(what.replace("%d", str(i)) for i in range(n)) + "</odML>"
+        return b
     if r < 0.93:
         depth = rng.choice([3, 30, 120, 199, 200, 256, 400])      # wf_problems treats depth > 200 as a cycle
         return '<odML version="1.1">' + "<section><name>s</name><type>t</type>" * depth + "</section>" * depth + "</odML>"
@@ -1200,7 +1234,7 @@ def run_xml_x(body, x):
     res = {"entry": entry, "sw": bool(x["sw"])}
     lenient = x_lenient(x)
     path = None
-    if entry in PATH_ENTRIES or entry in ("file_rb", "file_rt"):
+    if entry in PATH_ENTRIES or entry in ("file_rb", "file_rt", "odml_file_rb"):
         fname = x["fname"]
         path = tmp_path(("" if fname == "rel" else fname) + ".xml")
         with io.open(path, "wb") as fh:
@@ -1223,10 +1257,20 @@ def run_xml_x(body, x):
     res["in_scope"] = bool(x["faithful"] or root is not None or entry in STR_ENTRIES)
     res["decl_enc"] = bool(re.match(r"^\ufeff?<\?xml[^>]*encoding", text))
     kw = {"show_warnings": bool(x["sw"])}
-    if entry in ("file", "file_rb", "bytesio", "file_rt", "stringio", "string", "bytes"):
+    if entry in ("file", "file_rb", "bytesio", "file_rt", "stringio", "string", "bytes", "file_pathlib", "file_bytespath",
+                 "bytearray", "memoryview"):
         rd = XMLReader(ignore_errors=lenient, filename=x["fn"], **kw)
         if entry == "file":
             fn = lambda: rd.from_file(path)
+        elif entry == "file_pathlib":
+            import pathlib
+            fn = lambda: rd.from_file(pathlib.Path(path))
+        elif entry == "file_bytespath":
+            fn = lambda: rd.from_file(os.fsencode(path))
+        elif entry == "bytearray":
+            fn = lambda: rd.from_string(bytearray(data))
+        elif entry == "memoryview":
+            fn = lambda: rd.from_string(memoryview(data))
         elif entry == "file_rb":
             fn = lambda: rd.from_file(io.open(path, "rb"))
         elif entry == "bytesio":
@@ -1240,10 +1284,12 @@ def run_xml_x(body, x):
         else:
             fn = lambda: rd.from_string(data)
         return finish(res, lambda: rd.warnings, fn)
-    if entry in ("odml_file", "odml_string", "odml_bytes"):
+    if entry in ("odml_file", "odml_string", "odml_bytes", "odml_file_rb"):
         rd = ODMLReader(rng_case("XML", "xml", len(body)), **kw)
         if entry == "odml_file":
             fn = lambda: rd.from_file(path)
+        elif entry == "odml_file_rb":
+            fn = lambda: rd.from_file(io.open(path, "rb"))
         elif entry == "odml_string":
             fn = lambda: rd.from_string(text)
         else:
@@ -1251,6 +1297,9 @@ def run_xml_x(body, x):
         return finish(res, lambda: rd.warnings, fn)
     if entry == "load":
         return finish(res, lambda: [], lambda: odml.load(path, **kw))
+    if entry == "load_pathlib":
+        import pathlib
+        return finish(res, lambda: [], lambda: odml.load(pathlib.Path(path), **kw))
     if entry == "load_backend":
         return finish(res, lambda: [], lambda: odml.load(path, rng_case("XML", "xml", len(body)), **kw))
     if entry == "xp_load":
@@ -1406,6 +1455,8 @@ def gen_dict_py(rng):
         val = gen_dict_doc(rng)
     finally:
         _X[0] = False
+    if rng.random() < 0.3:
+        val = spice_dict(val, rng, False)               # round 3
     if r < 0.85:
         val = exoticise(val, rng, counter)
     return {"stream": "dict_py", "value": val, "via": rng.choice(["direct", "direct", "JSON", "YAML", "YAML"]),
@@ -1540,9 +1591,11 @@ def gen_reuse(rng, res):
             steps.append({"kind": "valid", "desc": gen_valid_doc(rng) if rng.random() < 0.5 else gen_valid_doc_x(rng)})
         elif r < 0.8:
             if reader.startswith(("xml", "odml_xml")):
-                steps.append({"kind": "tree", "tree": gen_xml_doc(rng)})
+                tree = gen_xml_doc(rng)
+                steps.append({"kind": "tree", "tree": spice_xml(tree, rng, False) if rng.random() < 0.3 else tree})
             else:
-                steps.append({"kind": "dict", "value": gen_dict_doc(rng)})
+                val = gen_dict_doc(rng)
+                steps.append({"kind": "dict", "value": spice_dict(val, rng, True) if rng.random() < 0.3 else val})
         else:
             fmt = {"odml_json": "JSON", "odml_yaml": "YAML"}.get(reader, "XML")
             pool = res.get(fmt) or [""]
@@ -1670,10 +1723,430 @@ def run_reuse(case):
     return {"steps": out, "after": after[:5]}
 
 
+# ============================================================================= round 3: what the texts contain
+# Dimension that was missing (design.d/C16.md, "Strengthening after seeded round 3"): the CHARACTERS of the
+# texts. Every pool above is made of words, numbers and punctuation that mean something to odML (brackets,
+# commas, quotes for the value lists) - none of them means anything to the machinery the readers use to
+# report a problem (printf-style and str.format templates, string.Template, re replacement strings,
+# backslash escapes, repr of the parsed content, paths / URLs). "Any text" includes "100% pure", "{0}",
+# "C:\temp", "it's". Two mechanisms:
+#   spice_xml / spice_dict   rewrite the texts (element texts, attribute values, dictionary strings and keys,
+#                            names) of a generated tree with tokens of ONE family, at a random rate; applied
+#                            to a share of the trees of every tree stream (modelled streams: printable ASCII
+#                            tokens only, the model treats texts as opaque apart from strip / lower / digits)
+#   stream fault             a valid document + a fault drawn from a grammar  problem kind x location x
+#                            number of copies x distance (lines) from the start x texts carried by the
+#                            faulty object, XML and dictionary formats, through the entry points of round 2.
+#                            Oracle-only. Additional clause ("every problem is recorded as a warning"): a
+#                            lenient read that returns a Document for a fault the reader must object to has
+#                            collected at least one warning (only for entry points that expose the warnings).
+SPICE = {
+    "printf": ["%", "%s", "%d", "%r", "%%", "100% pure", "50 %", "%(name)s", "%(k)", "% d", "%5.2f", "%c", "%x",
+               "%*d", "%n", "%s%s%s", "5%", "%)", "%-", "%%%"],
+    "format": ["{}", "{0}", "{name}", "{", "}", "{{", "}}", "{0!r}", "{:>10}", "{0.__class__}", "{0[0]}", "{!}",
+               "{1}", "{:d}"],
+    "template": ["$", "$$", "$name", "${name}", "${", "$1", "#{x}", "<%= x %>", "{{x}}", "{% x %}"],
+    "backslash": ["\\", "\\\\", "\\n", "\\u00e9", "\\x", "\\1", "\\g<0>", "\\g<name>", "C:\\temp\\new", "\\N{DASH}",
+                  "a\\", "\\'", "\\\"", "\\0", "\\u", "\\U0001F600"],
+    "regex": [".*", "(", ")", "[a-", "(?P<n>", "a|b", "^$", "*", "+?", "{1,2}", "(?i)", "[]", "\\d+", "(?#"],
+    "quote": ["'", '"', "'''", '"""', "`", "it's", 'say "x"', "'\"", "b'x'", "u'x'", "''", '""', "' or '1'='1"],
+    "pyrepr": ["None", "True", "[]", "()", "{}", "{'a': 1}", "[1, 2]", "('a',)", "__class__", "<Section a>",
+               "lambda: 0", "nan", "1e999", "0x10", "Ellipsis", "b''", "set()", "..."],
+    "markup": ["<name>", "</section>", "&amp;", "&", "<", ">", "]]>", "<!--", "-->", "<?pi?>", "&#0;", "&e;",
+               "<odML version=\"1.1\">", "<![CDATA["],
+    "path": ["../", "/", "..\\", "file://", "#", "?a=b&c", "%41", "%zz", "%2F", "a#b", "http://[::1", "~", "$HOME",
+             "*?", "//", "\\\\host\\share", "a:b"],
+    "sep": [",", ";", ":", "|", "=", " , ", ";;", "::", "/:", "\t", "a\tb", "a\nb", "\n", " \n "],
+}
+SPICE_FAMILIES = sorted(SPICE)
+SPICE_X = [u"\x85", u"\u2028", u"\xa0", u"\ufeff", u"\u200b", u"\u202e", u"%\xe9", u"{\xe9}", u"\ud800%", u"\\\u65e5",
+           u"%\u65e5s", u"\uff05", u"\uff5b\uff5d", u"'\u2019", "\x0b", "\x1f"]
+
+
+def spice_tokens(rng, model_safe):
+    fam = rng.choice(SPICE_FAMILIES)
+    toks = list(SPICE[fam])
+    if model_safe:
+        toks = [t for t in toks if all(32 <= ord(c) < 127 for c in t)]
+    elif rng.random() < 0.15:
+        toks = toks + SPICE_X
+    return fam, toks
+
+
+def spice_mix(s, toks, rng):
+    """how a token enters a text: alone, in front, behind, inside, twice"""
+    t = rng.choice(toks)
+    r = rng.random()
+    if not isinstance(s, str) or s == "" or r < 0.3:
+        return t
+    if r < 0.5:
+        return s + t
+    if r < 0.65:
+        return t + s
+    if r < 0.8:
+        i = rng.randrange(0, len(s) + 1)
+        return s[:i] + t + s[i:]
+    if r < 0.9:
+        return s + " " + t + " " + rng.choice(toks)
+    return t + s + t
+
+
+def spice_xml(tree, rng, model_safe=False):
+    """a copy of the abstract XML tree with texts and attribute values rewritten (structure untouched)"""
+    _, toks = spice_tokens(rng, model_safe)
+    rate = rng.choice([0.15, 0.3, 0.6, 1.0])
+
+    def walk(n, depth):
+        if "o" in n:
+            return n
+        n = {"t": n["t"], "a": [list(a) for a in n["a"]], "x": n["x"], "k": n["k"]}
+        leaf = not any("o" not in k and k["t"].lower() in ("section", "property") for k in n["k"])
+        if leaf and n["t"].lower() not in ("section", "property", "odml") and rng.random() < rate:
+            n["x"] = spice_mix(n["x"], toks, rng)
+        elif not leaf and rng.random() < rate * 0.1:
+            n["x"] = spice_mix(n["x"], toks, rng)             # text directly inside an object element
+        for a in n["a"]:
+            if not (depth == 0 and a[0] == "version") and rng.random() < rate:
+                a[1] = spice_mix(a[1], toks, rng)
+        if depth == 0 and rng.random() < 0.03:
+            n["a"] = [[a[0], spice_mix(a[1], toks, rng)] for a in n["a"]]     # also the format version
+        if rng.random() < rate * 0.08 and not any(a[0] == "foo" for a in n["a"]):
+            n["a"].append(["foo", rng.choice(toks)])
+        n["k"] = [walk(k, depth + 1) for k in n["k"]]
+        return n
+    return walk(tree, 0)
+
+
+def spice_dict(j, rng, model_safe=False):
+    """a copy of the encoded dictionary document with string values and some keys rewritten"""
+    _, toks = spice_tokens(rng, model_safe)
+    rate = rng.choice([0.15, 0.3, 0.6, 1.0])
+
+    def walk(v, depth):
+        if isinstance(v, str):
+            return spice_mix(v, toks, rng) if rng.random() < rate else v
+        if isinstance(v, list):
+            return [walk(x, depth + 1) for x in v]
+        if isinstance(v, dict) and "o" in v:
+            pairs = []
+            for k, x in v["o"]:
+                if depth == 0:                      # 'Document' / 'odml-version': the root check is not the point
+                    pairs.append([k, walk(x, depth + 1) if k == "Document" else x])
+                    continue
+                if k in WRONG_KEYS and rng.random() < rate:
+                    k = spice_mix(k, toks, rng)
+                pairs.append([k, walk(x, depth + 1)])
+            if depth > 0 and rng.random() < rate * 0.15:
+                pairs.insert(rng.randrange(0, len(pairs) + 1), [rng.choice(toks), rng.choice(toks + [1, None])])
+            seen = set()
+            return {"o": [p for p in pairs if not (p[0] in seen or seen.add(p[0]))]}
+        return v
+    return walk(j, 0)
+
+
+def fault_text(rng, toks):
+    """text carried by a faulty object: a word, a token, a sentence with tokens, rarely something long"""
+    r = rng.random()
+    if r < 0.3:
+        return rng.choice(["x", "some text", "7", "mV", "a b"])
+    if r < 0.6:
+        return rng.choice(toks)
+    if r < 0.9:
+        return "%s %s %s" % (rng.choice(["purity of", "see", "a", ""]), rng.choice(toks), rng.choice(["guaranteed", "", "b"]))
+    if r < 0.98:
+        return rng.choice(toks) * rng.choice([2, 10, 100])
+    return "x" * rng.choice([10 ** 4, 10 ** 5]) + rng.choice(toks)
+
+
+PROP_EXTRAS = ["definition", "unit", "value", "reference", "dependency", "dependencyvalue", "value_origin"]
+SEC_EXTRAS = ["definition", "reference", "repository", "link", "include"]
+# problem kinds of the XML reader; True: the reader must object (XMLReader.error / warn is the only way to
+# go on), so a lenient read has a warning afterwards; False: the reader may accept the input silently
+XML_FAULT_KINDS = [("prop_no_name", True), ("prop_no_name", True), ("sec_no_name", True), ("sec_no_type", True),
+                   ("sec_no_name_type", True), ("sec_no_name_child", True), ("unknown_elem", True),
+                   ("unknown_elem_in_obj", True), ("attr", True), ("repeat", True), ("bad_value", True),
+                   ("bad_csv", False), ("bad_card", False), ("bad_date", False), ("bad_id", False), ("dup", True),
+                   ("link_include", False), ("nesting_sec_in_prop", True), ("nesting_value_in_sec", True),
+                   ("empty_mandatory", False), ("other_node", False), ("text_in_obj", False)]
+
+
+def gen_xml_fault(kind, rng, toks, dup_sec, dup_prop, at_doc):
+    """abstract tree(s) of one fault; texts come from fault_text"""
+    T = lambda: fault_text(rng, toks)
+
+    def extras(pool, lo=1):
+        return [elem(t, T()) for t in rng.sample(pool, rng.randrange(lo, 4))]
+
+    def shuffled(kids):
+        if rng.random() < 0.5:
+            rng.shuffle(kids)
+        return kids
+    if kind == "prop_no_name":
+        return [elem("property", None, shuffled(extras(PROP_EXTRAS)))]
+    if kind == "sec_no_name":
+        return [elem("section", None, shuffled([elem("type", rng.choice(["t", T()]))] + extras(SEC_EXTRAS[:4], 0)))]
+    if kind == "sec_no_type":
+        return [elem("section", None, shuffled([elem("name", "zz")] + extras(SEC_EXTRAS[:4])))]
+    if kind == "sec_no_name_type":
+        return [elem("section", None, shuffled(extras(SEC_EXTRAS[:4])))]
+    if kind == "sec_no_name_child":
+        child = rng.choice([elem("section", None, [elem("name", T()), elem("type", T())]),
+                            elem("property", None, [elem("name", T()), elem("value", T())])])
+        return [elem("section", None, shuffled([elem("type", "t"), child] + extras(SEC_EXTRAS[:3], 0)))]
+    if kind == "unknown_elem":
+        return [elem(rng.choice(["foo", "NAME2", "values", "x.y", "a-b"]), T())]
+    if kind == "unknown_elem_in_obj":
+        if rng.random() < 0.5:
+            return [elem("property", None, [elem("name", "zz"), elem("foo", T())] + extras(PROP_EXTRAS, 0))]
+        return [elem("section", None, [elem("name", "zz"), elem("type", "t"), elem("foo", T())] + extras(SEC_EXTRAS[:3], 0))]
+    if kind == "attr":
+        if rng.random() < 0.5:
+            return [elem("section", None, [elem("name", "zz"), elem("type", "t")], [[rng.choice(["foo", "id", "name"]), T()]])]
+        return [elem("property", None, [elem("name", "zz"), elem("definition", T())], [["foo", T()]])]
+    if kind == "repeat":
+        return [elem("property", None, [elem("name", "zz"), elem("definition", T()), elem("definition", T())])]
+    if kind == "bad_value":
+        return [elem("property", None, shuffled([elem("name", "zz"), elem("type", rng.choice(["int", "float", "date", "boolean", "2-tuple"])),
+                                                 elem("value", "[" + T().replace("\r", "") + "q]")]))]
+    if kind == "bad_csv":
+        return [elem("property", None, [elem("name", "zz"), elem("value", "[a\rb," + T() + "]")])]
+    if kind == "bad_card":
+        return [elem("property", None, [elem("name", "zz"), elem("val_cardinality", T())]),
+                elem("section", None, [elem("name", "zy"), elem("type", "t"), elem(rng.choice(["sec_cardinality", "prop_cardinality"]), T())])]
+    if kind == "bad_date":
+        return [elem("date", T())] if at_doc else [elem("property", None, [elem("name", "zz"), elem("type", "date"), elem("value", T())])]
+    if kind == "bad_id":
+        return [elem("section", None, [elem("name", "zz"), elem("type", "t"), elem("id", T())])]
+    if kind == "dup":
+        out = []
+        if dup_sec is not None:
+            out.append(elem("section", None, [elem("name", dup_sec), elem("type", "t"), elem("definition", T())]))
+        if dup_prop is not None and not at_doc:
+            out.append(elem("property", None, [elem("name", dup_prop), elem("definition", T())]))
+        return out
+    if kind == "link_include":
+        return [elem("section", None, [elem("name", "zz"), elem("type", "t"), elem("link", T()), elem("include", T())])]
+    if kind == "nesting_sec_in_prop":
+        return [elem("property", None, [elem("name", "zz"), elem("section", None, [elem("name", T()), elem("type", "t")]),
+                                        elem("definition", T())])]
+    if kind == "nesting_value_in_sec":
+        return [elem("section", None, [elem("name", "zz"), elem("type", "t"), elem(rng.choice(["value", "unit", "dependency"]), T())])]
+    if kind == "empty_mandatory":
+        return [elem("section", None, [elem("name", rng.choice([None, " ", "\n"])), elem("type", rng.choice([None, " ", "t"])),
+                                       elem("definition", T())]),
+                elem("property", None, [elem("name", rng.choice([None, " "])), elem("definition", T())])]
+    if kind == "other_node":
+        return [{"o": rng.choice(["pi", "comment"])}, elem("section", None, [elem("name", "zz"), elem("type", "t"), {"o": "pi"}])]
+    if kind == "text_in_obj":
+        return [elem("section", T(), [elem("name", "zz"), elem("type", "t")])]
+    raise ValueError(kind)
+
+
+DICT_FAULT_KINDS = [("unknown_key", True), ("unknown_key_prop", True), ("create_fails", True), ("bad_value", True),
+                    ("dup_top", True), ("dup_sub", True), ("dup_prop", True), ("wrong_shape", True),
+                    ("string_entry", True), ("bad_date", True), ("texts", False), ("name_token", False)]
+
+
+def apply_dict_fault(data, kind, rng, toks, first_name):
+    """put one fault into the decoded dictionary of a valid document (in place)"""
+    T = lambda: fault_text(rng, toks)
+    secs = data["Document"].setdefault("sections", [])
+    s0 = [x for x in secs if isinstance(x, dict) and x.get("name") == first_name][0]     # the first valid Section
+    if kind == "unknown_key":
+        rng.choice([s0, data["Document"]])[rng.choice(["foo", T() or "k"])] = rng.choice([T(), 1, None, [T()]])
+    elif kind == "unknown_key_prop":
+        s0.setdefault("properties", []).insert(0, {"name": "zz", rng.choice(["foo", T() or "k"]): T(), "definition": T()})
+    elif kind == "create_fails":
+        secs.insert(rng.randrange(0, len(secs) + 1), {"name": "zz", "type": T(), "definition": T(), "section": []})
+    elif kind == "bad_value":
+        s0.setdefault("properties", []).insert(0, {"name": "zz", "type": rng.choice(["int", "date", "2-tuple"]),
+                                                   "definition": T(), "value": [T() + "q"]})
+    elif kind == "dup_top":
+        secs.append({"name": first_name, "type": "t", "definition": T()})
+        secs.append({"name": "yy", "type": "t"})
+    elif kind == "dup_sub":
+        s0.setdefault("sections", []).extend([{"name": T() or "k", "type": "t"}] * 2)
+    elif kind == "dup_prop":
+        nm = T() or "k"
+        s0.setdefault("properties", []).extend([{"name": nm, "definition": T()}, {"name": nm}])
+    elif kind == "wrong_shape":
+        s0.setdefault("properties", []).insert(0, rng.choice([[1], None, 5, T()]))
+        secs.insert(0, rng.choice([5, None, [T()]]))
+    elif kind == "string_entry":
+        secs.insert(rng.randrange(0, len(secs) + 1), T())
+    elif kind == "bad_date":
+        data["Document"]["date"] = T() + "q"
+    elif kind == "texts":
+        s0["definition"] = T()
+        data["Document"]["author"] = T()
+        s0.setdefault("properties", []).append({"name": "zz", "unit": T(), "value": [T(), T()], "reference": T()})
+    elif kind == "name_token":
+        secs.append({"name": T() or "k", "type": T() or "t"})
+    else:
+        raise ValueError(kind)
+
+
+def spiced_desc(desc, rng, toks):
+    """valid document description whose names / types / string values carry tokens (still valid: no leading or
+    trailing white space, sibling names stay different)"""
+    def clean(t):
+        return "".join(c for c in t if c not in "\r\n\t\x0b\x0c\x1c\x1d\x1e\x1f\x85\u2028\u2029\ud800")
+
+    def nm(n):
+        return "%s%s_" % (n, clean(rng.choice(toks))) if rng.random() < 0.4 else n
+
+    def sec(d):
+        props = [[nm(p), [(clean(rng.choice(toks)) or "v") if isinstance(v, str) and rng.random() < 0.5 else v for v in vals]]
+                 for p, vals in d[2]]
+        return [nm(d[0]), d[1], props, [sec(s) for s in d[3]]]
+    return [sec(d) for d in desc]
+
+
+PADS = [0, 0, 0, 0, 1, 100, 65533, 65534, 65535, 65536, 70000]       # lines in front of the fault
+COPIES = [1, 1, 1, 1, 2, 3, 30, 300]
+
+
+def gen_fault(rng, ascii_names=False):
+    """one case of the stream fault"""
+    _, toks = spice_tokens(rng, False)
+    if rng.random() < 0.25:
+        toks = ["x", "text", "1"]                 # the plain neighbours: same faults, harmless texts
+    desc = gen_valid_doc_x(rng) if rng.random() < 0.5 and not ascii_names else gen_valid_doc(rng)
+    if rng.random() < 0.3:
+        desc = spiced_desc(desc, rng, toks)
+    fmt = rng.choice(["XML", "XML", "XML", "JSON", "YAML"])
+    case = {"stream": "fault", "desc": desc, "format": fmt, "toks": toks, "seed": rng.randrange(0, 10 ** 9),
+            "copies": rng.choice(COPIES)}
+    if fmt == "XML":
+        kind, must = rng.choice(XML_FAULT_KINDS)
+        x = gen_xspec(rng, ascii_names)
+        if rng.random() < 0.6:
+            enc = rng.choice(ENC_UTF8)
+            x.update({"codec": enc[0], "decl": enc[1], "bom": enc[2], "faithful": enc[3], "same": enc[4]})
+        case.update({"kind": kind, "must": must, "x": x, "pad": rng.choice(PADS),
+                     "where": rng.choice(["doc_end", "doc_front", "sec_end", "sec_front", "nth_end", "nth_front"]),
+                     "nth": rng.randrange(0, 1000)})
+    else:
+        kind, must = rng.choice(DICT_FAULT_KINDS)
+        case.update({"kind": kind, "must": must, "mode": rng.choice(["strict", "lenient", "lenient"]),
+                     "sw": rng.random() < 0.4, "via": rng.choice(["direct", "direct", "text"]),
+                     "entry": rng.choice(["odml_string", "odml_file", "load"]), "deco": rng.randrange(0, 1000)})
+    return case
+
+
+def run_fault(case):
+    import random
+    from odml.tools.odmlparser import ODMLWriter
+    from odml.tools.dict_parser import DictReader
+    rng = random.Random(case["seed"])
+    toks = case["toks"]
+    desc = case["desc"]
+    doc = build_doc(desc)
+    fmt = case["format"]
+    want = desc_paths(desc)
+    try:
+        text = ODMLWriter(fmt).to_string(doc)
+    except Exception as exc:
+        return {"skipped": "the writer refuses the valid document: %s" % fw.exc_name(exc)}
+    if fmt == "XML":
+        where = case["where"]
+        at_doc = where.startswith("doc")
+        first, last = desc[0], desc[-1]
+        kind = case["kind"]
+        if kind == "dup" and where not in ("doc_end", "sec_end"):
+            where = "doc_end" if at_doc else "sec_end"
+        if where.startswith("nth"):
+            at_doc = False
+        dup_sec = first[0] if at_doc else (last[3][0][0] if last[3] else None)
+        dup_prop = None if at_doc else (last[2][0][0] if last[2] else None)
+        nodes = []
+        for _ in range(case["copies"]):
+            nodes += gen_xml_fault(kind, rng, toks, dup_sec, dup_prop, at_doc)
+        must = case["must"]
+        if kind == "dup":
+            # a valid sibling after the refused duplicates has to survive as well
+            must = must and bool(nodes)
+            nodes.append(elem("section", None, [elem("name", "yy"), elem("type", "t")]))
+            want = want + [("/yy" if at_doc else "/" + last[0] + "/yy")]
+        fault = "\n" * case["pad"] + "".join(serialize(n) for n in nodes)
+        opens = [m.end() for m in re.finditer(r"<section>", text)]
+        closes = [m.start() for m in re.finditer(r"</section>", text)]
+        if where == "doc_end":
+            idx = text.rfind("</odML>")
+        elif where == "doc_front":
+            m = re.search(r"<odML[^>]*>", text)
+            idx = m.end() if m else -1
+        elif where == "sec_end":
+            idx = text.rfind("</section>")
+        elif where == "sec_front":
+            idx = opens[0] if opens else -1
+        elif where == "nth_end":
+            idx = closes[case["nth"] % len(closes)] if closes else -1
+        else:
+            idx = opens[case["nth"] % len(opens)] if opens else -1
+        if idx < 0:
+            return {"skipped": "no insertion point"}
+        text = text[:idx] + fault + text[idx:]
+        obs = run_xml_x(re.sub(r"^<\?xml[^>]*\?>\s*", "", text), case["x"])
+        obs["want"] = want
+        obs["must"] = must
+        return obs
+    # dictionary formats
+    import yaml
+    data = json.loads(text) if fmt == "JSON" else yaml.safe_load(text)
+    for _ in range(min(case["copies"], 30)):
+        apply_dict_fault(data, case["kind"], rng, toks, desc[0][0])
+    if case["kind"] == "dup_top":
+        want = want + ["/yy"]
+    sw = bool(case["sw"])
+    res = {"sw": sw, "want": want, "shaped": True, "root_ok": dict_root_ok(data), "decoded": "value", "must": case["must"]}
+    dumped = dump_text(data, fmt, case["deco"]) if case["via"] == "text" else None
+    if dumped is not None:
+        kind, back = decode_text(dumped, fmt)
+        if kind != "value" or back != data:
+            dumped = None                         # the text form is not this value: use the value itself
+    if dumped is None:
+        lenient = case["mode"] == "lenient"
+        rd = DictReader(show_warnings=sw, ignore_errors=lenient)
+        res.update({"via": "direct", "lenient": lenient, "exposes": True})
+        return finish(res, lambda: rd.warnings, lambda: rd.to_odml(data))
+    entry = case["entry"]
+    # ODMLReader does not hand on the warnings of the DictReader it uses
+    res.update({"via": fmt, "entry": entry, "lenient": fmt == "YAML" and entry in ("odml_file", "load"), "exposes": False})
+    fn, warn = dict_text_call(dumped, fmt, entry, sw)
+    return finish(res, warn, fn)
+
+
+def judge_fault(case, obs):
+    if case["format"] == "XML":
+        x = case["x"]
+        lenient = x_lenient(x)
+        in_scope = obs.get("in_scope", False)
+        want = obs.get("want") if x["same"] else None
+        if want is not None and x["codec"] == "shift_jis" and any("\\" in p or "~" in p for p in want):
+            # bytes 5C / 7E of Shift_JIS are the yen sign and the overline for libxml2 (JIS X 0201), a backslash
+            # and a tilde for Python's codec: the bytes do not decode to the text that was written
+            want = None
+        out = judge(obs, lenient, in_scope, want)
+        exposes = x["entry"] not in ("load", "load_backend", "load_pathlib", "xp_load") and x["faithful"]
+    else:
+        lenient = obs.get("lenient", False)
+        in_scope = True
+        out = judge(obs, lenient, True, obs.get("want") if lenient else None)
+        exposes = obs.get("exposes", False)
+    # "every problem is recorded as a warning"
+    if obs.get("must") and lenient and in_scope and exposes and obs.get("root_ok") and obs.get("outcome") == "doc" \
+            and not obs.get("warnings"):
+        out.append("lenient reader returned a Document for an input with a problem (%s) and recorded no warning" % case["kind"])
+    return out
+
+
 # ---- another process: locale and hash seed ---------------------------------------------------------------------------
 SUB_ENVS = [{"LC_ALL": "C", "LANG": "C", "PYTHONUTF8": "0", "PYTHONCOERCECLOCALE": "0", "PYTHONHASHSEED": "0"},
             {"LC_ALL": "POSIX", "LANG": "", "PYTHONUTF8": "0", "PYTHONCOERCECLOCALE": "0", "PYTHONHASHSEED": "1"},
-            {"LC_ALL": "C.utf8", "PYTHONHASHSEED": "4242", "PYTHONIOENCODING": "ascii"}]
+            {"LC_ALL": "C.utf8", "PYTHONHASHSEED": "4242", "PYTHONIOENCODING": "ascii"},
+            # round 3: an interpreter that drops assert statements and docstrings
+            {"PYTHONOPTIMIZE": "2", "PYTHONHASHSEED": "7"}]
 
 
 def run_sub(case):
@@ -1761,7 +2234,13 @@ class C16(fw.Check):
             "depth up to 400); dictionaries with tuples/sets/dates/bytes/OrderedDict/non-string keys/shared "
             "objects/nan/huge numbers and YAML-only constructs through DictReader, ODMLReader and odml.load; "
             "one reader object for 2-4 inputs; the same cases in a process with the C locale and another "
-            "hash seed. A case is non-trivial when the "
+            "hash seed. Round 3: texts, attribute values, dictionary strings and keys, names and the filename "
+            "option rewritten with tokens of ten families (printf, str.format, Template, backslash, regex, quotes, "
+            "Python reprs, markup, paths, separators) in a share of the trees of every tree stream; valid "
+            "documents with a fault from a grammar (22 XML and 12 dictionary problem kinds x texts carried by the "
+            "faulty object x location x 1-300 copies x 0-70000 lines in front) through all entry points incl. "
+            "pathlib / bytes paths / bytearray / memoryview; boundary inputs (empty, root only, 10^7 characters in "
+            "one text, 3000 siblings); interpreter with -OO. A case is non-trivial when the "
             "reader got past the version check (document returned, or ParserException from inside the "
             "tree, or warnings collected); distinct = distinct canonical JSON of the case.")
 
@@ -1773,12 +2252,16 @@ class C16(fw.Check):
         n_tree = 1500 if q else 15000
         for _ in range(n_tree):
             tree = gen_xml_doc(rng)
+            if rng.random() < 0.25:
+                tree = spice_xml(tree, rng, True)       # round 3: texts with template / escape / quote characters
             for mode in ("strict", "lenient"):
                 cases.append({"stream": "xml_tree", "tree": tree, "mode": mode,
                               "entry": rng.choice(["string", "string", "file", "bytes", "file_rb", "bytesio"])})
         n_dict = 1500 if q else 15000
         for _ in range(n_dict):
             val = gen_dict_doc(rng)
+            if rng.random() < 0.25:
+                val = spice_dict(val, rng, True)
             for mode in ("strict", "lenient"):
                 cases.append({"stream": "dict_tree", "value": val, "mode": mode,
                               "via": rng.choice(["direct", "direct", "JSON", "YAML"])})
@@ -1793,7 +2276,12 @@ class C16(fw.Check):
             elif r < 0.7:
                 text = mutate_text(rng.choice(res["XML"]), rng)
             else:
-                text = mutate_text(serialize(gen_xml_doc(rng)), rng)
+                tree = gen_xml_doc(rng)
+                if rng.random() < 0.3:
+                    tree = spice_xml(tree, rng, False)
+                text = serialize(tree).replace(u"\ud800", "")       # this stream writes UTF-8 files
+                if rng.random() < 0.7:
+                    text = mutate_text(text, rng)
             cases.append({"stream": "xml_text", "text": text, "mode": rng.choice(["strict", "lenient"]),
                           "entry": rng.choice(["string", "file", "odml_string", "odml_file"])})
         for _ in range(n_text):
@@ -1804,7 +2292,12 @@ class C16(fw.Check):
             elif r < 0.65:
                 text = mutate_text(rng.choice(res[fmt]), rng)
             else:
-                text = mutate_text(json.dumps(to_py(gen_dict_doc(rng)), default=repr, indent=rng.choice([None, 1])), rng)
+                val = gen_dict_doc(rng)
+                if rng.random() < 0.3:
+                    val = spice_dict(val, rng, True)
+                text = json.dumps(to_py(val), default=repr, indent=rng.choice([None, 1]))
+                if rng.random() < 0.7:
+                    text = mutate_text(text, rng)
             cases.append({"stream": "dict_text", "text": text, "format": fmt,
                           "entry": rng.choice(["odml_string", "odml_file"])})
         # valid documents with one injected fault
@@ -1827,11 +2320,18 @@ class C16(fw.Check):
             cases.append(gen_dict_py(rng))
         for _ in range(300 if q else 3000):
             cases.append(gen_reuse(rng, res))
+        for _ in range(1200 if q else 12000):
+            cases.append(gen_fault(rng))                 # round 3
         for env in SUB_ENVS:
             sub = []
             for _ in range(40 if q else 300):
                 r = rng.random()
-                if r < 0.45:
+                if r < 0.2:
+                    c = gen_fault(rng, True)
+                    if c["format"] != "XML":
+                        c["entry"] = "odml_string"
+                    sub.append(c)
+                elif r < 0.45:
                     sub.append({"stream": "xml_file", "text": gen_xml_body(rng, res), "x": gen_xspec(rng, True)})
                 elif r < 0.75:
                     sub.append(self.gen_keepx(rng, True))
@@ -1907,6 +2407,8 @@ class C16(fw.Check):
             return run_dict_py(case)
         if st == "reuse":
             return run_reuse(case)
+        if st == "fault":
+            return run_fault(case)
         if st == "sub":
             obs = run_sub(case)
             for o in obs["sub"]:
@@ -2047,6 +2549,8 @@ class C16(fw.Check):
             return judge(obs, x_lenient(x), obs.get("in_scope", False), want)
         if st == "dict_py":
             return judge(obs, obs.get("lenient", False), obs.get("decoded") == "value" and obs.get("shaped", False))
+        if st == "fault":
+            return judge_fault(case, obs)
         if st == "reuse":
             for i, o in enumerate(obs["steps"]):
                 if "skipped" not in o:
@@ -2100,7 +2604,7 @@ class C16(fw.Check):
             if not m:
                 return None
             return classify(obs["steps"][int(m.group(1))], m.group(2))
-        if st in ("xml_file", "keepx", "dict_py"):
+        if st in ("xml_file", "keepx", "dict_py", "fault"):
             return classify(obs, failure)
         return None
 
@@ -2118,6 +2622,8 @@ class C16(fw.Check):
             mode = "%s/%s" % (case["x"]["entry"], case["x"]["codec"])
         if st == "dict_py":
             mode = obs.get("via", "")
+        if st == "fault":
+            mode = "%s/%s" % (case["format"], case["kind"])
         return ("%s:%s:%s" % (st, mode, outcome), nontrivial)
 
 
